@@ -342,21 +342,6 @@ pub fn check(paths: &Paths, tier: &str) -> i32 {
     let results = run_tier_p(&ctx, seed, p_runs, nworkers, Some(deadline_p));
     let p_wall = tp0.elapsed().as_secs_f64();
 
-    // determinism self-check: first runs again on one worker, digests must agree
-    let sc_n = selfcheck_runs.min(p_runs);
-    let again = run_tier_p(&ctx, seed, sc_n, 1.max(nworkers / 4), None);
-    for i in 0..sc_n as usize {
-        if let (Some(a), Some(b)) = (&results[i], &again[i]) {
-            if a.digest != b.digest {
-                eprintln!(
-                    "envsim: harness error: tier P run {i} is not deterministic (digest {:x} vs {:x}); job {:?}; violation {:?} vs {:?}",
-                    a.digest, b.digest, a.job, a.violation.as_ref().map(|v| &v.detail), b.violation.as_ref().map(|v| &v.detail)
-                );
-                return 2;
-            }
-        }
-    }
-
     let mut p_done = 0u64;
     let mut procs = 0u64;
     let mut fired = BTreeMap::new();
@@ -419,6 +404,41 @@ pub fn check(paths: &Paths, tier: &str) -> i32 {
         }
     }
     let _ = std::fs::remove_dir_all(&wd0.root);
+
+    // determinism self-check, after the violations have been collected (a change that makes the
+    // output depend on uncontrolled state shows up both as violations and as run-to-run divergence
+    // and must be reported as the former): the first runs again with another worker count.
+    let sc_n = selfcheck_runs.min(p_runs);
+    if violations.is_empty() {
+        let again = run_tier_p(&ctx, seed, sc_n, 1.max(nworkers / 4), None);
+        for i in 0..sc_n as usize {
+            if let (Some(a), Some(b)) = (&results[i], &again[i]) {
+                if a.plan_digest != b.plan_digest {
+                    eprintln!("envsim: harness error: tier P run {i} drew different plans in two executions ({:x} vs {:x})", a.plan_digest, b.plan_digest);
+                    return 2;
+                }
+                if a.obs_digest != b.obs_digest {
+                    // same seed, same job, same perturbation vector and fault plan — different observation:
+                    // the output depends on something the simulator does not own
+                    let v = Violation {
+                        invariant: "R1",
+                        detail: format!(
+                            "the same simulated run (same source, options, hash stream, clock, environment, fault plan) was observed twice with different results: {:?} / fired {:?} vs {:?} / fired {:?}",
+                            a.violation.as_ref().map(|v| &v.detail), a.stats.fired, b.violation.as_ref().map(|v| &v.detail), b.stats.fired
+                        ),
+                    };
+                    let sig = signature("P", &a.job.to_json(&ctx.corpus), &v);
+                    if known.matches(&sig).is_none() {
+                        let path = write_replay_p(paths, &ctx, seed, i as u64, &a.job, &a.perturb, &v, 0, None);
+                        violations.push((sig, path));
+                        if violations.len() >= 5 {
+                            break;
+                        }
+                    }
+                }
+            }
+        }
+    }
 
     // ---------------- tier L ----------------
     let l = tierl::run_tier(paths, seed, l_runs, nworkers, selfcheck_runs, deadline_l, &known);
